@@ -50,6 +50,30 @@ def real_op_cases(tier, seed, f32=False):
                 steps = [RESET, rleaf(1, d, draw(rnd, n, kind), trk=True, f32=f32), op(name, [1], 10, **par),
                          {"op": "backward", "args": [10], "seed": rt(d, draw(rnd, n, "any"), f32)}]
                 cases.append(steps)
+    # tails and extremes: saturating sigmoids, large / tiny exponentials and logarithms, bases near zero
+    tails = [("sigmoid", [-40.0, -30.0, -22.0, -18.5, -17.5, -12.0, 12.0, 17.5, 18.5, 25.0, 36.0, 0.0], {}),
+             ("exp", [-60.0, -30.0, -10.0, 10.0, 30.0, 60.0, 0.0, 1e-9], {}),
+             ("ln", [1e-12, 1e-6, 1e-3, 0.5, 1.0, 1e3, 1e9, 7e-4], {}),
+             ("softmax", [-30.0, 0.0, 25.0, 1.0, -1.0, 18.0, -18.0, 3.0], {}),
+             ("recip", [-1e-6, 1e-6, -1e5, 1e5, -0.5, 3.0, -7.0, 1e-3], {}),
+             ("powf", [1e-120, 1e-30, 1e-3, 0.5, 2.0, 1e3, 1e10, 4.0], {"p": {"n": 3}}),
+             ("powf", [1e-12, 1e-3, 0.25, 1.0, 9.0, 1e4, 1e8, 2.0], {"p": rsc(0.5, f32)}),
+             ("powf", [1e-6, 1e-2, 0.3, 1.0, 3.0, 50.0, 1e3, 7.0], {"p": rsc(-1.5, f32)})]
+    if f32:
+        # keep every intermediate inside the normal range of f32
+        tails = [(n_, [max(min(v, 3e4), -3e4) if abs(v) > 1e-9 or v == 0 else (1e-9 if v > 0 else -1e-9) for v in vs], par)
+                 for (n_, vs, par) in tails]
+    for name, vals, par in tails:
+        for d in ([8], [2, 4], [4, 2]):
+            for k in range(3 if tier == "thorough" else 2):
+                vs = (vals[4 * k:] + vals[:4 * k] + vals)[:8]
+                steps = [RESET, rleaf(1, d, vs, trk=True, f32=f32), op(name, [1], 10, **par),
+                         {"op": "backward", "args": [10], "seed": rt(d, draw(rnd, 8, "nz"), f32)}]
+                cases.append(steps)
+                # through a product, so that a vanishing derivative is visible against a large adjoint
+                steps = [RESET, rleaf(1, d, vs, trk=True, f32=f32), op(name, [1], 10, **par), op("scale", [10], 11, c=rsc(1e6, f32)),
+                         {"op": "backward", "args": [11]}]
+                cases.append(steps)
     pairs = [(a, b) for a in shapes(3, 3) for b in shapes(3, 3) if bdims(a, b)]
     for a, b in rnd.sample(pairs, 200 if tier == "thorough" else 40):
         od = bdims(a, b)
@@ -202,5 +226,37 @@ def real_layer_cases(tier, seed, f32=False):
             for k, b in enumerate(([], [2])):
                 steps.append(rleaf(10 + 2 * k, b + [2, 3, 3], draw(rnd, prod(b) * 18, "any"), f32=f32))
                 steps.append({"op": "layer_forward", "layer": 1, "args": [10 + 2 * k], "res": 11 + 2 * k})
+            cases.append(steps)
+    return cases
+
+
+def real_tracking_cases(tier, seed, f32=False):
+    """C09 / C18 for ln, exp, sigmoid, softmax, reciprocal, division, non-integer powf: result flags, plain gradients,
+    flags restored, and the operand owns its buffer again once every result is dropped (with gradients stored)"""
+    rnd = random.Random(seed)
+    cases = []
+    for name, kind, par in [("ln", "pos", {}), ("exp", "any", {}), ("sigmoid", "any", {}), ("softmax", "any", {}),
+                            ("recip", "nz", {}), ("powf", "pos", {"p": rsc(1.5, f32)}), ("relu", "nz", {})]:
+        for d in ([3], [2, 3]):
+            for trk in (True, False):
+                n = prod(d)
+                steps = [RESET, rleaf(1, d, draw(rnd, n, kind), trk=trk, f32=f32), op(name, [1], 10, **par)]
+                if trk:
+                    steps += [{"op": "backward", "args": [10], "seed": rt(d, draw(rnd, n, "any"), f32)},
+                              {"op": "grad", "args": [1], "res": 90}, {"op": "backward", "args": [10]},
+                              {"op": "drop", "args": [10]}, {"op": "drop", "args": [90]}, {"op": "into_vec", "args": [1]}]
+                else:
+                    steps += [{"op": "clone", "args": [10], "res": 11}, {"op": "into_vec", "args": [1]}]
+                cases.append(steps)
+    for name in ("div", "mul"):
+        for trk in ([True, True], [True, False], [False, True], [False, False]):
+            d = [2, 2]
+            steps = [RESET, rleaf(1, d, draw(rnd, 4, "any"), trk=trk[0], f32=f32), rleaf(2, d, draw(rnd, 4, "nz"), trk=trk[1], f32=f32),
+                     op(name, [1, 2], 10)]
+            if any(trk):
+                steps += [{"op": "backward", "args": [10]}, {"op": "drop", "args": [10]}]
+            else:
+                steps += [{"op": "drop", "args": [10]}]
+            steps += [{"op": "into_vec", "args": [1]}, {"op": "into_vec", "args": [2]}]
             cases.append(steps)
     return cases
